@@ -491,3 +491,8 @@ def run(ctx: Ctx, rep: Report, tier: str) -> None:
     splice_rule(ctx, rep, "Acl.ungroup_ports")
     r19_4b(ctx, rep)
     split_before_convert(ctx, rep)
+    # R19.6 premise: the copies the split is made of are faithful (each field rebuilt from its own exported data) and
+    # the names the renderer writes for the split entries are in the splitter's vocabulary
+    from .c16 import nested_data_plumbing
+
+    nested_data_plumbing(ctx, rep, rid="R19.6")
